@@ -6,6 +6,12 @@ from harness.props import alloc_common as ac
 from harness.props.alloc_common import HEADER, HEADER_H, run_impl, to_coq, shrink
 
 ASSUMPTIONS = [
+    "'all thresholds' is read as every float the caller can compare a ratio with: finite values of any sign and magnitude, +inf and "
+    "-inf (model: Alloc/Thr.v thr); a NaN is not a threshold and is not generated - the code answers must_be_refined(nan) = False and "
+    "refine(nan) = identity, as the model's TNan does (recorded under nan_probe_not_judged, not judged)",
+    "level counts: 1-4 everywhere, 8 and 16 where the harness' own reading of the property predicts at most 300 cells after the call "
+    "(the constructor's overlap check is quadratic); a refine call that is predicted to be small and does not return within 120 s is "
+    "reported as failed",
     "tolerances set explicitly (Rectangle.set_epsilon) and passed to the model as parameters; the sliver ratio is the exact value of the float 0.01",
     "grid alignment is read 'at the time the cut was tried' (DESIGN.md C12): a boundary may remain inside a final cell only if cutting the cell "
     "as it was when that boundary was tried would have left a piece thinner than 1% of its other side",
@@ -181,6 +187,26 @@ def oracle(case, obs):
     return None
 
 
+def nan_probe():
+    """NOT judged (a NaN is no threshold: 'no module exceeds nan' has no agreed reading, so nan is outside 'all
+    thresholds'): what the code does with it, next to what the model says (Alloc/Thr.v TNan: x <= nan is False, hence
+    must_be_refined False and refine the identity, theorem C12_mbr_bottom)."""
+    import random
+    out = []
+    try:
+        for layout in ("mixed", "all-empty", "zero-ratio"):
+            cells = ac.ext_cells(random.Random(layout), layout)
+            a = ac.build_alloc(cells)
+            m = bool(a.must_be_refined(float("nan")))
+            ch = not ac.same_cells(ac.cells_obs(a.refine(float("nan"), 2)), ac.cells_obs(a))
+            out.append({"layout": layout, "must_be_refined(nan)": m, "refine(nan) changes": ch,
+                        "model": {"must_be_refined": False, "changes": False}, "agree": (m, ch) == (False, False),
+                        "consistent": m == ch})
+    except Exception as e:
+        out.append({"error": f"{type(e).__name__}: {e}"})
+    return out
+
+
 def failure_key(case, why):
     w = why or ""
     h = "history-" if ac.is_hist(case) else ""
@@ -193,7 +219,13 @@ def failure_key(case, why):
 
 def run(ctx, out, replay=None):
     n = 520 if ctx.quick() else 5000
-    out.rule = ("same generators as C02: (a) chains on fresh objects (guillotine / sparse / grid / sliver layouts; empty, "
+    out.rule = ("EXTREME ARGUMENTS: a systematic block of thresholds +inf, -inf, +-1e308, -1, 0, 1, 2, 1+2^-52, 1-2^-53, +-5e-324, -2^-60 "
+                "x level counts 1, 2, 8, 16 x degenerate layouts (all cells empty, occupied cells fixed + empty rest, mixed, one "
+                "empty cell, one full cell, zero ratios, all occupied), on fresh objects - must_be_refined and refine probed at "
+                "all of these thresholds, the callers' loop 'while must_be_refined(t): refine(t, l)' followed for two rounds at "
+                "each - and on shared objects whose occupied cells are flagged fixed in place; 30% of the other cases get some "
+                "thresholds / level counts replaced by such values; whole-number thresholds passed as ints in 30-40% of these. "
+                "Otherwise the same generators as C02: (a) chains on fresh objects (guillotine / sparse / grid / sliver layouts; empty, "
                 "single, multi, full, fixed maps; depths 0-3; layouts with different numbers of x- and y-boundaries), "
                 "must_be_refined probed at 5 thresholds before and after every operation; (b) histories on shared objects: "
                 "must_be_refined / refine / uniform / griddify / queries called repeatedly on any allocation built so far, with "
@@ -212,3 +244,6 @@ def run(ctx, out, replay=None):
     out.extra["history_cases"] = sum(1 for c in cases if ac.is_hist(c))
     out.extra["variants"] = ac.variant_counts(cases)
     out.extra["note"] = "distribution keys are layout-kind/operation-sequence"
+    out.extra["nan_probe_not_judged"] = nan_probe()
+    ext = [c for c in cases if c["kind"].startswith("ext-") or c["kind"] == "hist-ext" or "extreme" in c["kind"] or c.get("tint")]
+    out.extra["extreme_argument_cases"] = len(ext)
